@@ -112,9 +112,9 @@ impl MultiPeerBackend for XPubSocketBackend {
             .insert(peer_id.clone(), recv_queue);
     }
 
-    fn peer_disconnected(&self, peer_id: &PeerIdentity) {
+    async fn peer_disconnected(&self, peer_id: &PeerIdentity) {
         log::info!("Client disconnected {:?}", peer_id);
-        self.subscribers.remove_sync(peer_id);
+        self.subscribers.remove_async(peer_id).await;
         self.fair_queue_inner.lock().remove(peer_id);
     }
 }
@@ -170,7 +170,7 @@ impl SocketSend for XPubSocket {
             iter = subscriber.next_async().await;
         }
         for peer in dead_peers {
-            self.backend.peer_disconnected(&peer);
+            self.backend.peer_disconnected(&peer).await;
         }
         Ok(())
     }
@@ -192,7 +192,7 @@ impl SocketRecv for XPubSocket {
                     // Ignore non-message frames
                 }
                 Some((peer_id, Err(e))) => {
-                    self.backend.peer_disconnected(&peer_id);
+                    self.backend.peer_disconnected(&peer_id).await;
                     return Err(e.into());
                 }
                 None => {
